@@ -106,6 +106,28 @@ add(tok("cdn_nonorth_fresh", "cdn", nonorth(CDN), options=RG1))
 add(dict(name="circ_big", kind="circular", options=dict(number_of_processors=1, nx_core=6, ny_total=16, q_coefficients=[1.5, 2.0])))
 
 
+def steep_cfg(mirrored=False):
+    """a non-orthogonal single null whose outer target is so oblique to the flux surfaces (and so finely spaced) that contours must be EXTENDED to reach the wall;
+    mirrored: the upper single null that is its mirror image (Z -> -Z)"""
+    o = dict(orthogonal=False, number_of_processors=1, psinorm_core=0.8, psinorm_sol=1.2, psinorm_pf=0.9, ny_inner_divertor=4, ny_sol=12, ny_outer_divertor=8, nx_core=2, nx_sol=2,
+             psi_spacing_separatrix_multiplier=0.5, target_all_poloidal_spacing_length=0.3, xpoint_poloidal_spacing_length=0.05, finecontour_Nfine=200, y_boundary_guards=1)
+    if mirrored:
+        o["target_outer_upper_poloidal_spacing_length"] = 0.03
+        return tok("usn_nonorth_steep", "usn", o, wall="steep", mirror=True, must_build=True)
+    o["target_outer_lower_poloidal_spacing_length"] = 0.03
+    return tok("lsn_nonorth_steep", "lsn", o, wall="steep", must_build=True)
+
+
+def steep_cdn_cfg():
+    """an up-down symmetric connected double null, non-orthogonal, in a wall whose floor AND ceiling are steeply inclined: the outer lower leg ENDS on the wall, its mirror
+    image (the outer upper leg) STARTS on it, and contours have to be extended to reach the wall at both"""
+    o = dict(orthogonal=False, number_of_processors=1, psinorm_core=0.8, psinorm_sol=1.2, psinorm_pf=0.9, ny_inner_lower_divertor=4, ny_inner_upper_divertor=4, ny_inner_sol=6,
+             ny_outer_sol=6, ny_outer_lower_divertor=8, ny_outer_upper_divertor=8, nx_core=2, nx_sol=2, psi_spacing_separatrix_multiplier=0.5, target_all_poloidal_spacing_length=0.3,
+             target_outer_lower_poloidal_spacing_length=0.03, target_outer_upper_poloidal_spacing_length=0.03, xpoint_poloidal_spacing_length=0.05, finecontour_Nfine=200,
+             y_boundary_guards=1, refine_timeout=600.0)
+    return tok("cdn_nonorth_steep", "cdn", o, wall="steep2", must_build=True)
+
+
 def builder_hash():
     h = hashlib.sha256()
     for f in ("impl/grid.py", "analytic.py", "crit.py"):
